@@ -306,6 +306,7 @@ def static_sanity():
 
 
 def replay(body) -> int:
+    common.REC.known.clear()
     if body.get("static"):
         res = static_sanity()
         bad = [k for k, v in res.items() if not v]
@@ -317,6 +318,10 @@ def replay(body) -> int:
             ex.apply(op)
     except common.Violation as v:
         print("REPLAY: reproduced", v.signature, str(core.to_jsonable(v.detail))[:600])
+        return 1
+    if common.REC.known:
+        for sig, k in common.REC.known.items():
+            print("REPLAY: reproduced (listed as an open known finding)", sig, str(k["detail"])[:400])
         return 1
     print("REPLAY: operation list ran clean on this tree")
     return 0
